@@ -68,7 +68,7 @@ func init() {
 	props["C01"] = &propCfg{
 		id: "C01", level: "exploration", design: "DESIGN.md §4 C01", modes: []string{"benign"},
 		quick: tierCfg{worlds: 36, batchSize: 24, checks: 600, timeoutS: 300},
-		thor:  tierCfg{worlds: 200, batchSize: 40, checks: 3600, timeoutS: 9000},
+		thor:  tierCfg{worlds: 200, batchSize: 40, checks: 10800, timeoutS: 9000},
 		genCfg: func(seed uint64, name string) gen.Config {
 			if seed%2 == 1 {
 				// every other world adds the JSON-mapping annotations (custom codecs in the path)
@@ -96,7 +96,7 @@ func init() {
 	props["C11"] = &propCfg{
 		id: "C11", level: "fault_enumeration", design: "DESIGN.md §4 C11", modes: []string{"server-link-faults", "server-garbage", "client-faults"},
 		quick: tierCfg{worlds: 32, batchSize: 24, checks: 450, timeoutS: 300, env: []string{"VERIF_SWEEP=1", "VERIF_SWEEP_MAX=3"}},
-		thor:  tierCfg{worlds: 160, batchSize: 40, checks: 2400, timeoutS: 9000, env: []string{"VERIF_SWEEP=1", "VERIF_SWEEP_MAX=60"}},
+		thor:  tierCfg{worlds: 160, batchSize: 40, checks: 7200, timeoutS: 9000, env: []string{"VERIF_SWEEP=1", "VERIF_SWEEP_MAX=60"}},
 		genCfg: func(seed uint64, name string) gen.Config {
 			if seed%2 == 1 {
 				// custom decoders for annotated messages in the path of hostile bodies
@@ -110,7 +110,7 @@ func init() {
 	props["C17"] = &propCfg{
 		id: "C17", level: "exploration", design: "DESIGN.md §4 C17", modes: []string{"isolation", "history"}, passes: []string{"yield"},
 		quick: tierCfg{worlds: 28, batchSize: 24, checks: 360, timeoutS: 300},
-		thor:  tierCfg{worlds: 140, batchSize: 40, checks: 2100, timeoutS: 9000},
+		thor:  tierCfg{worlds: 140, batchSize: 40, checks: 6300, timeoutS: 9000},
 		genCfg: func(seed uint64, name string) gen.Config {
 			if seed%3 == 0 {
 				// worlds with the JSON-mapping annotations: their generated codecs run under the same interleavings
@@ -125,7 +125,7 @@ func init() {
 	props["C02"] = &propCfg{
 		id: "C02", level: "exploration", design: "DESIGN.md §4 C02", needTS: true, modes: []string{"binding"},
 		quick: tierCfg{worlds: 32, batchSize: 24, checks: 750, timeoutS: 300},
-		thor:  tierCfg{worlds: 160, batchSize: 40, checks: 4500, timeoutS: 9000},
+		thor:  tierCfg{worlds: 160, batchSize: 40, checks: 13500, timeoutS: 9000},
 		genCfg: func(seed uint64, name string) gen.Config {
 			a := safeAllow()
 			delete(a, gen.FHeaderOverride)
@@ -137,7 +137,7 @@ func init() {
 	props["C03"] = &propCfg{
 		id: "C03", level: "exploration", design: "DESIGN.md §4 C03", modes: []string{"matrix"}, needTS: true,
 		quick: tierCfg{worlds: 32, batchSize: 24, checks: 240, timeoutS: 300},
-		thor:  tierCfg{worlds: 160, batchSize: 40, checks: 1200, timeoutS: 9000},
+		thor:  tierCfg{worlds: 160, batchSize: 40, checks: 3600, timeoutS: 9000},
 		genCfg: func(seed uint64, name string) gen.Config {
 			a := safeAllow()
 			delete(a, gen.FHeaderOverride)
@@ -165,7 +165,7 @@ func init() {
 	props["C08"] = &propCfg{
 		id: "C08", level: "exploration", design: "DESIGN.md §4 C08", modes: []string{"ts-go", "go-ts", "ts-ts"}, needTS: true,
 		quick: tierCfg{worlds: 28, batchSize: 24, checks: 240, timeoutS: 300},
-		thor:  tierCfg{worlds: 120, batchSize: 40, checks: 1200, timeoutS: 9000},
+		thor:  tierCfg{worlds: 120, batchSize: 40, checks: 3600, timeoutS: 9000},
 		genCfg: func(seed uint64, name string) gen.Config {
 			a := safeAllow()
 			delete(a, gen.FHeaderOverride) // case-variant overriding is C09's subject
@@ -182,7 +182,7 @@ func init() {
 	props["C09"] = &propCfg{
 		id: "C09", level: "exploration", design: "DESIGN.md §4 C09", needTS: true, modes: []string{"headers", "openapi-headers"},
 		quick: tierCfg{worlds: 32, batchSize: 24, checks: 750, timeoutS: 300},
-		thor:  tierCfg{worlds: 160, batchSize: 40, checks: 4500, timeoutS: 9000},
+		thor:  tierCfg{worlds: 160, batchSize: 40, checks: 13500, timeoutS: 9000},
 		genCfg: func(seed uint64, name string) gen.Config {
 			return gen.Config{Seed: seed, Name: name, Allow: safeAllow(), Force: []string{gen.FHeadersSvc, gen.FHeadersMeth}, TSSafe: true}
 		},
@@ -195,7 +195,7 @@ func init() {
 	props["C10"] = &propCfg{
 		id: "C10", level: "exploration", design: "DESIGN.md §4 C10", needTS: true, modes: []string{"errors", "upstream-errors"},
 		quick: tierCfg{worlds: 32, batchSize: 24, checks: 750, timeoutS: 300},
-		thor:  tierCfg{worlds: 160, batchSize: 40, checks: 4500, timeoutS: 9000},
+		thor:  tierCfg{worlds: 160, batchSize: 40, checks: 13500, timeoutS: 9000},
 		genCfg: func(seed uint64, name string) gen.Config {
 			a := safeAllow()
 			delete(a, gen.FHeaderOverride)
@@ -207,7 +207,7 @@ func init() {
 	props["C20"] = &propCfg{
 		id: "C20", level: "exploration", design: "DESIGN.md §4 C20", modes: []string{"mock"}, passes: []string{"rand", "yield"}, mock: true,
 		quick: tierCfg{worlds: 32, batchSize: 24, checks: 600, timeoutS: 300},
-		thor:  tierCfg{worlds: 160, batchSize: 40, checks: 3600, timeoutS: 9000},
+		thor:  tierCfg{worlds: 160, batchSize: 40, checks: 10800, timeoutS: 9000},
 		genCfg: func(seed uint64, name string) gen.Config {
 			a := safeAllow(gen.FExamples)
 			// every other world keeps to the shapes the mock fills (examples matter there);
